@@ -157,7 +157,7 @@ fn chk16(serial: u64, id: u32, gen: u16) -> u16 {
 // the element trait
 
 pub trait Elem:
-    Sized + Hash + Eq + Clone + Send + Sync + Default + std::fmt::Debug + for<'a> From<&'a crate::plan::KeyRef> + 'static
+    Sized + Hash + Eq + Clone + Send + Sync + Default + std::fmt::Debug + for<'a> From<&'a crate::plan::KeyRef> + for<'a> From<&'a Self> + 'static
 {
     const NAME: &'static str;
     /// ids are taken modulo this (1 for the ZST)
@@ -209,6 +209,13 @@ macro_rules! common_traits {
         impl Default for $t {
             fn default() -> Self {
                 <$t as Elem>::make(0, 0)
+            }
+        }
+        impl<'a> From<&'a $t> for $t {
+            /// `entry_ref(&K)` with `Q = K`: the stored key is a fresh instance made from the borrowed one
+            fn from(k: &'a $t) -> $t {
+                fuse::tick(Class::Into);
+                <$t as Elem>::make(k.id(), crate::plan::INTO_GEN)
             }
         }
         impl<'a> From<&'a crate::plan::KeyRef> for $t {
